@@ -1,9 +1,10 @@
 #!/bin/bash
-# seed_round.sh <Cxx> [extra checks]: verify both seeds of a property and run the owning check (+extras)
+# seed_round.sh <Cxx> [extra checks]   env: ROOT=/tmp/seed-out LETTERS="a b"
 p="$1"; shift
-for x in a b; do
-  [ -f /tmp/seed-out/$p/$x.patch.diff ] || { echo "$p$x: no patch"; continue; }
-  v=$(/verif/tools/verify_seed.sh /tmp/seed-out/$p $x 2>&1 | tail -1)
+ROOT="${ROOT:-/tmp/seed-out}"; LETTERS="${LETTERS:-a b}"
+for x in $LETTERS; do
+  [ -f $ROOT/$p/$x.patch.diff ] || { echo "$p$x: no patch"; continue; }
+  v=$(/verif/tools/verify_seed.sh $ROOT/$p $x 2>&1 | tail -1)
   echo "$p$x verify: $v"
-  /verif/tools/try_seed.sh /tmp/seed-out/$p/$x.patch.diff $p "$@" 2>&1 | sed "s/^/$p$x try: /"
+  /verif/tools/try_seed.sh $ROOT/$p/$x.patch.diff $p "$@" 2>&1 | sed "s/^/$p$x try: /"
 done
